@@ -113,6 +113,165 @@ def check_is_modifier(mod, rep, R):
               '_is_modifier(z) is z.is_functor and z.left == z.right (%s)' % detail, '_is_modifier: %s' % detail)
 
 
+def _const_items(mod, node, env, depth):
+    """values a literal iterable yields: strings of a display / text, integers of range(<constants>)"""
+    if isinstance(node, ast.Constant) and isinstance(node.value, str):
+        return list(node.value)
+    if isinstance(node, ast.Call) and isinstance(node.func, ast.Name) and node.func.id == 'range' and not node.keywords \
+            and 1 <= len(node.args) <= 3 and all(isinstance(a, ast.Constant) and isinstance(a.value, int) for a in node.args):
+        return list(range(*[a.value for a in node.args]))
+    if isinstance(node, (ast.Tuple, ast.List, ast.Set)) and all(isinstance(e, ast.Constant) for e in node.elts):
+        return [e.value for e in node.elts]
+    return const_strings(mod, node, depth + 1, env)
+
+
+def _const_text(mod, node, env):
+    """the text of a constant / f-string over loop variables / concatenation, or None"""
+    if isinstance(node, ast.Constant) and isinstance(node.value, str):
+        return node.value
+    if isinstance(node, ast.Name) and node.id in env:
+        return str(env[node.id])
+    if isinstance(node, ast.JoinedStr):
+        out = ''
+        for v in node.values:
+            if isinstance(v, ast.Constant):
+                out += str(v.value)
+            elif isinstance(v, ast.FormattedValue) and v.format_spec is None and v.conversion == -1:
+                part = _const_text(mod, v.value, env)
+                if part is None:
+                    return None
+                out += part
+            else:
+                return None
+        return out
+    if isinstance(node, ast.BinOp) and isinstance(node.op, ast.Add):
+        a, b = _const_text(mod, node.left, env), _const_text(mod, node.right, env)
+        return None if a is None or b is None else a + b
+    if isinstance(node, ast.Call) and isinstance(node.func, ast.Name) and node.func.id == 'str' and len(node.args) == 1:
+        return _const_text(mod, node.args[0], env)
+    return None
+
+
+def const_strings(mod, node, depth=0, env=None):
+    """the strings a module-level constant expression denotes as a collection (literal displays -- also with starred
+    comprehensions over literal tables / range(<constants>) and f-string elements --, set()/frozenset()/tuple()/list()
+    of such, unions with | and +, names bound once at module level or imported from another module of the
+    repository), or None."""
+    env = env or {}
+    if depth > 8:
+        return None
+    if isinstance(node, (ast.Tuple, ast.List, ast.Set)):
+        out = []
+        for e in node.elts:
+            if isinstance(e, ast.Starred):
+                sub = const_strings(mod, e.value, depth + 1, env)
+                if sub is None:
+                    return None
+                out += sub
+                continue
+            t = _const_text(mod, e, env)
+            if t is None:
+                return None
+            out.append(t)
+        return out
+    if isinstance(node, (ast.ListComp, ast.SetComp, ast.GeneratorExp)):
+        envs = [dict(env)]
+        for g in node.generators:
+            if g.ifs or not isinstance(g.target, ast.Name):
+                return None
+            items = _const_items(mod, g.iter, env, depth)
+            if items is None:
+                return None
+            envs = [dict(e, **{g.target.id: v}) for e in envs for v in items]
+        out = []
+        for e in envs:
+            t = _const_text(mod, node.elt, e)
+            if t is None:
+                return None
+            out.append(t)
+        return out
+    if isinstance(node, ast.Call) and isinstance(node.func, ast.Name) and node.func.id in ('set', 'frozenset', 'tuple', 'list', 'sorted') \
+            and len(node.args) == 1 and not node.keywords:
+        return const_strings(mod, node.args[0], depth + 1, env)
+    if isinstance(node, ast.BinOp) and isinstance(node.op, (ast.BitOr, ast.Add)):
+        a, b = const_strings(mod, node.left, depth + 1, env), const_strings(mod, node.right, depth + 1, env)
+        return None if a is None or b is None else a + b
+    if isinstance(node, ast.Name):
+        binds = [s_ for s_ in mod.tree.body if isinstance(s_, (ast.Assign, ast.AnnAssign))
+                 and any(isinstance(t, ast.Name) and t.id == node.id for t in (s_.targets if isinstance(s_, ast.Assign) else [s_.target]))]
+        if len(binds) == 1 and binds[0].value is not None:
+            return const_strings(mod, binds[0].value, depth + 1, env)
+        if not binds:
+            for s_ in mod.tree.body:
+                if isinstance(s_, ast.ImportFrom) and s_.module and s_.level == 0:
+                    for al in s_.names:
+                        if (al.asname or al.name) == node.id:
+                            repo = getattr(mod, 'repo', None)
+                            rel = s_.module.replace('.', '/') + '.py'
+                            if repo is not None and repo.exists(rel):
+                                return const_strings(repo.module(rel), ast.Name(id=al.name, ctx=ast.Load()), depth + 1)
+        return None
+    return None
+
+
+PUNCT_NAMES = {'LRB', 'RRB', 'LQU', 'RQU'}
+
+
+def check_is_punct(mod, rep, R):
+    """_is_punct(z): z is atomic and its name either does not start with a letter or is one of the four bracket / quote
+    names.  The combinators are judged with `_is_punct` as a primitive, so what it means is fixed here."""
+    from . import boolfn as bf
+    import string
+    fn = mod.get('_is_punct')
+    p = fn.args.args[0].arg
+    w = '%s:%s _is_punct' % (mod.rel, fn.lineno)
+    base = A(N(p), 'base')
+    paths, vals = bf.paths_of(fn)
+    members = set()
+    for conds, v in vals:
+        ts = [c for c, _ in conds] + ([v] if isinstance(v, tuple) else [])
+        for t in ts:
+            for x in subterms(t):
+                if x[0] == 'cmp' and x[1] in ('in', 'not in') and x[2] == base:
+                    members.add(x[3])
+                if x[0] == 'cmp' and x[1] in ('==', '!=') and base in (x[2], x[3]):
+                    members.add(('tuple', (x[3] if x[2] == base else x[2],)))
+    names = []
+    unknown = []
+    for t in members:
+        if t[0] in ('tuple', 'list', 'set') and all(e[0] == 'const' and isinstance(e[1], str) for e in t[1]):
+            names += [e[1] for e in t[1]]
+        elif t[0] == 'name':
+            got = const_strings(mod, ast.Name(id=t[1], ctx=ast.Load()))
+            if got is None:
+                unknown.append(show(t))
+            else:
+                names += got
+        else:
+            unknown.append(show(t))
+    if unknown:
+        raise AnalysisError('%s: _is_punct tests the category name against %s, whose members cannot be read off the source' % (mod.rel, unknown))
+    lettered = {n_ for n_ in names if n_ and n_[0] in string.ascii_letters}
+    rep.check(lettered == PUNCT_NAMES, R, w, mod.rel + ':_is_punct:names',
+              'the lettered names _is_punct accepts are exactly the bracket and quote categories %s' % sorted(PUNCT_NAMES),
+              '_is_punct accepts the lettered names %s; punctuation spelled with letters is %s (a conjunction or word category treated as '
+              'punctuation is absorbed with the label of punctuation absorption)' % (sorted(lettered), sorted(PUNCT_NAMES)))
+    # the decision function, with "name is one of the accepted names" as one elementary test per spelling found
+    shape = (('truthy', A(N(p), 'is_functor')), ('truthy', A(N(p), 'is_atomic')))
+    cons = lambda sigma: not (shape[0] in sigma and shape[1] in sigma) or sigma[shape[0]] != sigma[shape[1]]
+    letter = bf.T(('cmp', 'in', ('sub', base, C(0)), N('ascii_letters')))
+    named = bf.OR(*[bf.T(('cmp', 'in', base, t)) if not (t[0] == 'tuple' and len(t[1]) == 1) else bf.T(('cmp', '==', base, t[1][0])) for t in sorted(members, key=repr)]) \
+        if members else ('const', False)
+    ok = False
+    detail = ''
+    for atomic in (bf.NOT(bf.T(A(N(p), 'is_functor'))), bf.T(A(N(p), 'is_atomic'))):
+        ok, detail = bf.matches(fn, bf.AND(atomic, bf.OR(bf.NOT(letter), named)), cons)
+        if ok:
+            break
+    rep.check(ok, R, w, mod.rel + ':_is_punct',
+              '_is_punct(z) is: z atomic and (z.base[0] not a letter or z.base one of the listed names) (%s)' % detail, '_is_punct: %s' % detail)
+
+
 def check_combinator(lang, mod, name, fn, rep, R):
     """-> labels produced.  R: dict of rule ids."""
     params = [a.arg for a in fn.args.args]
@@ -235,6 +394,12 @@ def check_combinator(lang, mod, name, fn, rep, R):
             rep.check(ok, R['restrict'], w(o), key0 + ':N-NP-restriction',
                       '%s: refuses to compose over a bare N or NP (the cancelled category %s)' % (name, b),
                       '%s is backward crossed composition but has no refusal when the cancelled category %s is N or NP' % (name, b))
+            # ... and on every path that does build a result (the modifier shortcut included) N and NP have been ruled out
+            ruled_out = _restriction_on_path(o.conds, u, polarity=False)
+            rep.check(ruled_out == b, R['restrict'], w(o), key0 + ':N-NP-restriction:' + ('modifier' if mods[0][1] else 'general'),
+                      '%s: this result is built only after the cancelled category %s was found not to be N or NP' % (name, b),
+                      '%s: a result (%s path) is built without having ruled out N / NP as the cancelled category %s'
+                      % (name, 'modifier shortcut' if mods[0][1] else 'general', b))
     if uni_used is not None and SCHEMAS[lang].get(next(iter(labels))[0 if lang == 'en' else 1] if labels else None):
         rep.check(modifier_paths[True] >= 1 and modifier_paths[False] >= 1, R['modifier'],
                   '%s:%s %s' % (mod.rel, fn.lineno, name), key0 + ':modifier-both',
@@ -245,8 +410,9 @@ def check_combinator(lang, mod, name, fn, rep, R):
     return labels
 
 
-def _restriction_on_path(conds, u):
-    """name of the meta variable tested against exactly {'N','NP'} (polarity True) on this path, else None"""
+def _restriction_on_path(conds, u, polarity=True):
+    """name of the meta variable tested against exactly {'N','NP'} (with the given polarity) on this path, else None.
+    With polarity False the exclusion may also be spread over several tests (b != 'N' and b != 'NP')."""
     uni = u[0]
 
     def scan(t, vars_, consts):
@@ -269,13 +435,19 @@ def _restriction_on_path(conds, u):
                     for y in x:
                         scan(y, vars_, consts)
 
+    spread = {}
     for a, pol in true_atoms(conds):
-        if not pol:
+        if pol != polarity:
             continue
         vars_, consts = set(), set()
         scan(a, vars_, consts)
         if consts == {'N', 'NP'} and len(vars_) == 1:
             return next(iter(vars_))
+        if not polarity and len(vars_) == 1 and consts and consts <= {'N', 'NP'}:
+            v = next(iter(vars_))
+            spread.setdefault(v, set()).update(consts)
+            if spread[v] == {'N', 'NP'}:
+                return v
     return None
 
 
